@@ -40,6 +40,14 @@ pub fn park_code(r: &Result<(), crate::park::ParkError>) -> usize {
     }
 }
 
+/// a verification point that is passed when the value goes out of scope (i.e. after the statement that follows)
+pub struct PointOnDrop(pub &'static str, pub usize);
+impl Drop for PointOnDrop {
+    fn drop(&mut self) {
+        pt(self.0, self.1, 0, 0);
+    }
+}
+
 /// `std::time::Instant` look-alike for deadline loops: follows the virtual clock when one is installed
 #[derive(Clone, Copy, PartialEq, PartialOrd, Debug)]
 pub struct VInstant(u128);
